@@ -165,7 +165,7 @@ CLAIMED = {
               "end; one repetition or a zero interval yields exactly the anchor; the three notations of one finite series are ==; for "
               "any interval (nominal included) consecutive points differ by one application of the interval. The full-strength claim "
               "for bounded nominal intervals is refuted by a vm_compute witness (known finding F4)."),
-        note="min_point/max_point are left None (the parser never sets them); generators are modelled as 'take the first k'.",
+        note="Props/C12Code.v: the bodies of TimeRecurrence.__init__, __iter__, __getitem__, get_next/get_prev, _get_is_in_bounds (and the other methods) are translated from /repo on every run (gen/GenCode5.v; TimePoint/Duration operations as parameters instantiated with the model's) and proved to compute rec_make, iter_take, ... for every fuel. min_point/max_point are left None (the parser never sets them); generators are modelled as 'take the first k'.",
         technique="Coq proof by induction over iteration on top of the C01/C02 theorems + correspondence + Spec oracle",
         design="7 C12"),
     "C13": dict(
@@ -173,7 +173,7 @@ CLAIMED = {
               "probe's instant is start + i*len for an index in range (and the scan answers given enough fuel); r[i] is the i-th point; "
               "get_next/get_prev give the adjacent instant or None past the ends; get_first_after (whole-second interval and probe) is the "
               "earliest later member, the first member before the series, None past a bounded end."),
-        note=("Props/C13Ext.v adds the reverse (duration/end, unbounded) series in closed form and, for any stepping interval incl. months/years, the queries against "
+        note=("Props/C13Code.v: the bodies of get_is_valid, get_first_after, _get_is_in_bounds translated from /repo on every run (gen/GenCode5.v) compute the model functions these theorems are about. Props/C13Ext.v adds the reverse (duration/end, unbounded) series in closed form and, for any stepping interval incl. months/years, the queries against "
               "iteration itself (get_is_valid <-> some iterated point at that instant; r[i]; get_next/get_prev in the direction of iteration; the scanning "
               "get_first_after). Scans carry explicit fuel in the model (3000 in the correspondence)."),
         technique="Coq proof on top of C12 + correspondence with probes re-zoned/re-expressed by the implementation + oracle from iteration",
@@ -183,7 +183,7 @@ CLAIMED = {
               "spelling), so every iterated point moves by exactly len x; (r + x) - x == r; == is component-wise; equal exact recurrences "
               "iterate the same instants. Correspondence incl. single-point recurrences of all notations, either operand order, crafted "
               "unequal/equal pairs, and the str/parse round trip (implementation-side oracle only)."),
-        note=("Props/C14Text.v: equal recurrences hash equivalent tuples (any interval); explicit text of str; parse(str r) exists, == r and iterates the same points "
+        note=("Props/C14Code.v: the bodies of __add__, __sub__, __eq__, the hashed tuple and __str__ translated from /repo on every run (gen/GenCode5.v) compute rec_add, rec_sub, rec_eqb, rec_hash_key, rec_str. Props/C14Text.v: equal recurrences hash equivalent tuples (any interval); explicit text of str; parse(str r) exists, == r and iterates the same points "
               "for every parser-producible recurrence (any mode, any local offset, all notations, exact/nominal/week/zero intervals; counts below 10^4300, where str "
               "itself raises). The text, the re-parsed recurrence and the hashed tuple are compared with the implementation on every text case."),
         technique="Coq proof (10-shape constructor inversion; congruence of rec_make/iteration under respelling) + correspondence + round-trip oracle",
